@@ -424,8 +424,9 @@ impl World {
             if b_hb.is_none() {
                 node.obs.insert((*id).clone(), ObsModel::default());
             }
-            if *hb > b_hb.unwrap_or(0) {
-                let o = node.obs.entry((*id).clone()).or_default();
+            let o = node.obs.entry((*id).clone()).or_default();
+            if *hb > o.max_seen {
+                o.max_seen = *hb;
                 o.count += 1;
                 o.last_ms = now;
             }
